@@ -226,7 +226,14 @@ def _shard_entry(args):
     fn, shard, nshards, payload = args
     try:
         return ("ok", fn(shard, nshards, payload))
-    except Exception:  # noqa
+    except Exception as e:  # noqa
+        if type(e).__name__ == "UiParseError":
+            # a .ui of an accepted document that is not well-formed XML, met where the check did not expect it:
+            # no value can be read from it, which no property survives; the shard's other results are lost
+            t = Tally()
+            t.inc("shards_ended_by_a_malformed_ui")
+            t.violation("emitted-ui-not-well-formed", {"error": str(e), "shard": [shard, nshards], "where": traceback.format_exc()[-1500:]})
+            return ("ok", t)
         return ("err", traceback.format_exc())
     finally:
         global _worker_vd
